@@ -132,11 +132,13 @@ def run(chk, replay=None):
     for cfg, must in (("MC_PeerLifecycle_ok", True), ("MC_PeerLifecycle_eof_keeps_entry", False), ("MC_PeerLifecycle_error_stream_requeued", False), ("MC_PeerLifecycle_send_error_keeps_peer", False)):
         r = vlib.tlc("PeerLifecycle", cfg + ".cfg", chk.wd, timeout=600, coverage=must)
         (chk.model_must_hold if must else chk.model_must_fail)(r, "PeerLifecycle " + cfg + (": released after observation, at most one error per peer, nothing routed to an observed-dead peer; 2 peers, every fault / recv / send order" if must else " (named deviation of the code, past or open: counterexample exists)"))
-    for cfg, must, what in (("MC_PeerTable_ok1", True, "awaited removal, 1 worker thread: never stuck, every task terminates (call + 2 handshakes queued behind the held entry)"),
-                            ("MC_PeerTable_ok2", True, "awaited removal, 2 worker threads"),
-                            ("MC_PeerTable_sync_remove_2threads", True, "blocking removal, 2 worker threads: a worker is blocked but everything terminates"),
-                            ("MC_PeerTable_sync_remove_1thread", False, "blocking removal after the entry was held across an await, 1 worker thread (the pinned tree): the runtime is stuck for good"),
-                            ("MC_PeerTable_reach", False, "reachability companion: a handshake really queues behind the call's entry")):
+    for cfg, must, what in (("MC_PeerTable_ok1", True, "the repaired design (shared entry copied out, bucket locked for an instant), 1 worker thread: never stuck, no task suspended while owning the bucket, every task terminates (call + 2 handshakes)"),
+                            ("MC_PeerTable_ok2", True, "the repaired design, 2 worker threads"),
+                            ("MC_PeerTable_held_awaited_1thread", True, "entry held across the await, awaited removal (intermediate fix), 1 worker thread: not stuck"),
+                            ("MC_PeerTable_sync_remove_2threads", True, "entry held, blocking removal, 2 worker threads: a worker is blocked but everything terminates"),
+                            ("MC_PeerTable_sync_remove_1thread", False, "entry held across the await and blocking removal, 1 worker thread (the pinned tree): the runtime is stuck for good"),
+                            ("MC_PeerTable_held_suspended_owner", False, "entry held across the await: a suspended task owns the bucket (what makes any blocking table operation - stream-end hook, Drop - unsafe)"),
+                            ("MC_PeerTable_reach", False, "reachability companion: a handshake really queues behind a held entry")):
         r = vlib.tlc("PeerTable", cfg + ".cfg", chk.wd, timeout=300, coverage=must)
         (chk.model_must_hold if must else chk.model_must_fail)(r, "PeerTable " + what)
     if replay:
